@@ -46,7 +46,26 @@ def replay(p):
             err = max(abs(back[0] - u[0] * f.int_all), abs(f.int_all - ref), max(0.0, x[0] - s[0]), max(0.0, s[0] - x[-1]))
             return {"reproduced": bool(err > 1e-8 * (1 + abs(ref)) or err != err), "error_magnitude": float(err)}
         if kind == "single_sampling":
-            return {"reproduced": False, "error": "the acceptance logic is replayed by construction (w_i, bound symbolic); no numeric replay"}
+            import tensorflow as tf
+            from tf_pwa.generator.generator import single_sampling2
+
+            N = p["N"]
+            w = np.array([g("w%d" % i, 1.0) for i in range(N)])
+            f = np.array([g("f%d" % i, 1.0) for i in range(N)])
+            rnd = np.array([g("rnd_%d" % (i + 1), 0.5) for i in range(N)])
+            old = tf.random.uniform
+            tf.random.uniform = lambda shape, **kw: tf.convert_to_tensor(rnd)
+            try:
+                mw = tf.convert_to_tensor(np.float64(g("bound0", 1.0))) if p.get("with_bound") else None
+                data, new_mw = single_sampling2(lambda n: {"idx": tf.convert_to_tensor(np.arange(n))}, lambda d: tf.convert_to_tensor(w), N, mw,
+                                                (lambda d: tf.convert_to_tensor(f)) if p.get("with_imp") else None)
+            finally:
+                tf.random.uniform = old
+            eff = w / f if p.get("with_imp") else w
+            kept = [int(i) for i in np.asarray(data["idx"].numpy())]
+            b = float(new_mw)
+            bad = any(eff[i] > b * (1 + 1e-12) for i in kept) or any(e > b * (1 + 1e-12) for e in eff)
+            return {"reproduced": bool(bad), "bound": b, "weights": eff.tolist(), "kept": kept}
     except Exception as e:
         return {"reproduced": False, "error": "%s: %s" % (type(e).__name__, str(e)[:300])}
     return {"reproduced": False, "error": "no replay for kind %s" % kind}
